@@ -26,7 +26,7 @@ LEVEL_TEXT = ("Every schedule of 2 (and 3) encoding threads with at most one pre
 LEVEL_NOTE = ("Preemption points are function-call boundaries inside rtflite (the property's own quantifier); the real interpreter can switch at any bytecode. "
               "Trusted: baton scheduler (zero-preemption schedule must reproduce solo outputs; failing schedules replayed twice), census restore between schedules.")
 
-DOCS = ["red", "paged", "multi", "figure", "plain", "grouped", "pbA", "pbB"]
+DOCS = ["red", "paged", "multi", "figure", "plain", "grouped", "pbA", "pbB", "gpA", "gpB"]
 _SNAP = None
 _SOLO = {}
 _NUM = re.compile(r"\\(cf|cb|chcbpat|brdrcf)\d+")
@@ -180,8 +180,8 @@ def eval_case(case: dict) -> dict:
 
 def plan(run):
     quick = run.tier == "quick"
-    run.rule = ("threads encode pool documents (red 4x2 with title; blue/green paginated with footnote; coloured multi-section; figure with coloured title; plain; grouped; two page_by documents with different data); "
-                "for every ordered pair (quick: 3 seed-rotated ordered pairs + one document with itself + one triple; thorough: all 30 pairs, 4 self-pairs, 6 triples) every schedule with 0 or 1 preemption at every library call boundary; 3 threads "
+    run.rule = ("threads encode pool documents (red 4x2 with title; blue/green paginated with footnote; coloured multi-section; figure with coloured title; plain; grouped; two page_by documents with different data; two paginated group_by documents whose page starts and group starts coincide); "
+                "for every ordered pair (quick: 4 ordered pairs, two of them seed-rotated + one document with itself + one triple; thorough: all 30 pairs, 4 self-pairs, 6 triples) every schedule with 0 or 1 preemption at every library call boundary; 3 threads "
                 "with <= 1 preemption; every schedule with 2 preemptions inside the first W call boundaries of both threads (W=60 quick for one seed-rotated pair, 80 thorough for the 12 ordered pairs of the four coloured documents); every NON-nested 2-preemption schedule (A paused at p, B runs to q, A runs to its end, B continues) with p, q in {first, last and the two points after the first of every epoch of constant process-global state of the solo encode} "
                 "plus an even grid of G points (G=16 quick, 32 thorough); thorough: 2 preemptions exhaustively on the smallest document encoded by two threads. states = schedules executed; transitions = preemptions executed; non-trivial = distinct schedules in which a preemption was actually executed")
     run.assumptions = ["scheduling points are entries of functions whose code file is under <repo>/src/rtflite/, plus every line of the library "
@@ -192,7 +192,8 @@ def plan(run):
     if quick:
         # seed-rotated subset of ordered pairs, each explored exhaustively
         pairs = [all_pairs[(run.seed * 3 + k * 5) % len(all_pairs)] for k in range(3)]
-        pairs = list(dict.fromkeys(pairs[:2] + [("pbA", "pbB")]))[:3]  # two page_by documents with different data are always included
+        # two page_by documents with different data and two paginated group_by documents are always included
+        pairs = list(dict.fromkeys(pairs[:2] + [("pbA", "pbB"), ("gpA", "gpB")]))[:4]
         same = ["red"]
         trips = [("red", "paged", "multi")]
     else:
